@@ -30,7 +30,11 @@ type c09Case struct {
 	// same FSM object), each Established and ended by a received Cease or a
 	// TCP close, before the connection under test
 	Prev []string `json:"prev,omitempty"` // "cease" | "fin"
-	Cuts []int    `json:"cuts,omitempty"`
+	// Partial: for fin/rst, that many octets of a valid 40-byte UPDATE (legal or
+	// not in the state - it is never complete) are sent before the connection is
+	// closed: a close inside a header or a body is still a close
+	Partial int   `json:"partial,omitempty"`
+	Cuts    []int `json:"cuts,omitempty"`
 }
 
 var stimTypes = map[string]uint8{"open": 1, "update": 2, "notification": 3, "keepalive": 4}
@@ -53,7 +57,7 @@ func c09Prop(t *testing.T, r *hx.Run, sub string) func(c c09Case) hx.Verdict {
 			dir = "out"
 		}
 		v := hx.Verdict{Class: fmt.Sprintf("%s/%s/%s", c.State, c.Stim, dir)}
-		v.NT = fmt.Sprintf("%s/%s/%s/%v/%x/%d/%d/%v", c.State, c.Stim, dir, c.Notif, []byte(c.Raw), c.UpdLen, c.Hold, c.Prev)
+		v.NT = fmt.Sprintf("%s/%s/%s/%v/%x/%d/%d/%v/%d", c.State, c.Stim, dir, c.Notif, []byte(c.Raw), c.UpdLen, c.Hold, c.Prev, c.Partial)
 		p := basePeer(c.Out)
 		var dev *hx.Dev
 		fail := func(key, f string, a ...any) {
@@ -154,10 +158,18 @@ func c09Prop(t *testing.T, r *hx.Run, sub string) func(c c09Case) hx.Verdict {
 					} else {
 						stim = c.Notif.Frame()
 					}
-				case "fin":
-					conn.RemoteClose()
-				case "rst":
-					conn.RemoteReset()
+				case "fin", "rst":
+					if c.Partial > 0 {
+						m := wire.Frame(wire.TypeUpdate, taggedUpdate(0xD1000000, 21))
+						conn.RemoteSend(m[:min(c.Partial, len(m)-1)], nil)
+						w.Settle()
+						nwBefore = len(conn.Snapshot().Writes)
+					}
+					if c.Stim == "fin" {
+						conn.RemoteClose()
+					} else {
+						conn.RemoteReset()
+					}
 				}
 				if stim != nil {
 					conn.RemoteSend(stim, c.Cuts)
@@ -287,6 +299,14 @@ func TestC09(t *testing.T) {
 							return
 						}
 					}
+					if s == "fin" || s == "rst" {
+						// the close arrives inside a header / right after it / inside a body
+						for _, part := range []int{1, 18, 19, 20, 39} {
+							if !yield(c09Case{State: st, Stim: s, Out: out, Partial: part}) {
+								return
+							}
+						}
+					}
 				}
 			}
 		}
@@ -326,6 +346,8 @@ func TestC09(t *testing.T) {
 		}
 		if c.Stim != "fin" && c.Stim != "rst" {
 			c.Cuts = genCuts(rt, 19+c.UpdLen+40)
+		} else if rapid.Bool().Draw(rt, "partial") {
+			c.Partial = pick(rt, "partialn", 1, 16, 18, 19, 20, 30, 39)
 		}
 		if rapid.IntRange(0, 2).Draw(rt, "withprev") == 0 {
 			for i, k := 0, rapid.IntRange(1, 2).Draw(rt, "nprev"); i < k; i++ {
